@@ -3,6 +3,18 @@
 import json, os, subprocess
 V = os.path.dirname(os.path.dirname(os.path.abspath(__file__)))
 TEXT = {
+ 'C01': ('conservation monitor: dense CAS-keyed ledger of every stream before/after real mix_from/split_to/separate_out/copy_flow(remove)/scale/Stream.sum calls + sparse invariants',
+         'Exploration: seeded random cases (Stream/MultiStream receivers and inlets, receiver among inlets, foreign property packages, stale outlets, exact 0/1 splits, all-zero inlets) executed on the real code; a dense ledger model decides per-chemical conservation after each call. Held-on-what-was-observed only.',
+         'Receiver package lists every inlet chemical; energy balance only on l/g streams; destination-side content that copy_flow overwrites is not judged.'),
+ 'C05': ('reference-model monitor: dense stoichiometric model (balanced by construction from the rational null space of the formula matrix) vs the real reaction call; mass/atom ledgers, reactant consumption, feasibility verdicts',
+         'Exploration: seeded random balanced reactions and feeds over single/parallel/series/system, mol/wt, phase-less/phase-tagged, streams (own and foreign package) and bare arrays; every normal return is compared with the dense model, mass and element totals, and non-negativity; predicted-infeasible conversions must raise.',
+         'Element counts from a harness table cross-checked against the library at start-up; the band between predicted negatives of -1e-9 and -1e-13 is not judged.'),
+ 'C06': ('energy-ledger monitor: Reaction.dH recomputed from Hf and latent heats; Hnet/H/Hf of the real stream recorded around isothermal and adiabatic reaction calls',
+         'Exploration: seeded random balanced reactions with known heats of formation; dH formula, isothermal formation-enthalpy identity (literal form at the reference state), adiabatic closure with heat input, gas and liquid feeds 280-450 K.',
+         'Hf, Hvap(298.15), Hfus are read from the library chemicals; away from the reference state the Kirchhoff-corrected identity is used (DESIGN C06).'),
+ 'C17': ('algebraic-identity monitor: both sides applied to a common feed with the real code; operand snapshots compared bit-for-bit and result/container identity checked after every operator',
+         'Exploration: seeded random pairs/triples of reactions sharing a reactant; a+b vs parallel, (a+b)-b vs a, scaling, in-place vs binary forms, new-object/no-shared-container/operands-unchanged for copy, neg, backwards, add, sub, copy(basis); item.X <-> set.X.',
+         'Feeds plentiful so neither side is infeasible.'),
  'C09': ('differential runtime monitor: real sparse objects vs NumPy twins (single operations, indexing, reductions, rejections, aliasing histories, bounded enumeration) + stored-entry invariant after every operation',
          'Exploration: every operation of the decided domain D is executed on the real SparseVector/SparseLogicalVector/SparseArray and on NumPy twins; dense images, operand preservation, rejections and the stored-entries invariant are compared after each call, over random cases, 5-30 step aliasing histories and a bounded exhaustive enumeration (alphabet {0,1,-1,0.5}, vectors<=3, arrays<=2x2). Held-on-what-was-observed only.',
          'NumPy is the reference; operations where NumPy raises or gives inf/nan are not judged; numba disabled as in the repository test configuration.'),
